@@ -278,6 +278,12 @@ func genOpPatches(t *rapid.T, doc map[string]interface{}, allowIetf bool, st *pr
 				action = "add-public-keys"
 			}
 		}
+		if allowIetf && rapid.IntRange(0, 7).Draw(t, "strayExternalMember") == 0 {
+			// members that only documents handed in from outside may not carry ("id", "@context") are ordinary members when a
+			// JSON patch adds them
+			p = map[string]interface{}{"action": "ietf-json-patch", "patches": []interface{}{map[string]interface{}{"op": "add",
+				"path": rapid.SampledFrom([]string{"/id", "/@context", "/id"}).Draw(t, "strayName"), "value": rapid.SampledFrom([]interface{}{"did:example:stray", []interface{}{"https://www.w3.org/ns/did/v1"}}).Draw(t, "strayValue")}}}
+		}
 		if p == nil {
 			p = genDedicatedPatch(t, action, ref, true)
 		}
